@@ -26,6 +26,7 @@ From FT Require Import Base.Dict Model.Edit Model.EditExec Proofs.EditInv Proofs
 From FT Require Proofs.EditSwap.
 From FT Require Proofs.EditNodeBasic Proofs.EditBook Proofs.EditUDN Proofs.EditUAN Proofs.EditWFEdge.
 From FT Require Gen.History_gen Proofs.HistoryGen Props.C02.
+From FT Require Proofs.EditBook Proofs.EditWFNode.
 Import ListNotations.
 Open Scope Z_scope.
 
@@ -191,6 +192,18 @@ Theorem C04_history_is_generated : forall st a dA,
    end).
 Proof. exact FT.Props.C02.C02_edit_machine_uses_generated. Qed.
 
+(* ---- the same with the node calls: every state reachable from a well-formed state by any sequence, of
+        any length, of UserAddNode / UserDeleteNode / edge-level calls (accepted or refused) satisfies the
+        complete invariant WF, provided each UserAddNode respects its documented preconditions at the moment
+        it is made (op_pre: integer time / track id, no caller-supplied lineage id, and - with a
+        segmentation - a non-zero id and pixels of the node's own frame that are background; the three
+        accepted-but-invariant-breaking calls of Proofs/EditWFNodeExample.v show each part is needed) ---- *)
+Theorem C04_run_node_calls : forall ops st,
+  forallb EditWFNode.node_fragment ops = true -> WF st -> EditBook.rp_disjoint st ->
+  (forall pre o post, ops = pre ++ o :: post -> EditWFNode.op_pre (run st pre) o) ->
+  WF (run st ops).
+Proof. exact EditWFNode.run_node_WF. Qed.
+
 Example C04_ex4_hypotheses :
   W_dict ex4 /\ W_forest ex4 /\ W_trk ex4 /\ W_book ex4 /\ trk_bounded ex4 /\ trk_act (ft ex4) = true.
 Proof. exact (conj ex4_W_dict (conj ex4_W_forest (conj ex4_W_trk (conj ex4_W_book (conj ex4_trk_bounded eq_refl))))). Qed.
@@ -233,3 +246,4 @@ Print Assumptions C04_frame_delete_node.
 Print Assumptions C04_step_add_node.
 Print Assumptions C04_run_edge_calls.
 Print Assumptions C04_history_is_generated.
+Print Assumptions C04_run_node_calls.
